@@ -1,6 +1,6 @@
 """C15, translator tie: optuna/_hypervolume/wfg.py as written in the source today -> Lean data -> proved equal to the hand model
-(Props/C15Gen: _compute_2d, _compute_hv / _compute_exclusive_hv, compute_hypervolume for ALL inputs); hssp.py and the two rank functions:
-normalised source text pinned (`*_shape`).  Props/C15GenSpec restates the hypervolume theorems of Props/C15 for the interpreters.
+(Props/C15Gen: _compute_2d, _compute_hv / _compute_exclusive_hv, compute_hypervolume for ALL inputs); hssp.py (part 2) and the two rank functions (part 3: Generated/RankMethods.lean,
+Model/RankIR.lean, gen_calculate_rank_eq / gen_fast_rank_eq) are interpreted as well; every function in scope keeps its normalised-text pin (`*_shape`).  Props/C15GenSpec restates the hypervolume theorems of Props/C15 for the interpreters.
 
 regenerate(chk)   Generated/HvShapes.lean (always) + Generated/HvMethods.lean (whitelisted shapes; else chk.broke("translation") and the file
                   stays as it was).  Call BEFORE chk.prove(MODULES).
@@ -34,7 +34,14 @@ ASSUMPTION = ("T-hv: the IR's numpy primitives mean what Model/HvIR.lean says (a
               "m[idx] = True, ~m, a[mask], a[idx] (an out-of-range index is ignored / reads 0 where numpy raises), a[:n], np.setdiff1d, np.append); "
               "_solve_hssp_on_unique_loss_vals is a record of holes over a fixed loop skeleton (first-maximum argmax, which arrays drop the pick, break at "
               "the last pick, the slice handed to the lazy update, result through rank_i_indices) - statement order and everything else of its body is "
-              "checked syntactically by the translator; _lazy_contribs_update, _solve_hssp_2d and the two rank functions remain text pins")
+              "checked syntactically by the translator; _lazy_contribs_update and _solve_hssp_2d remain text pins; "
+              "rank functions part 3: _calculate_nondomination_rank and _fast_non_domination_rank are interpreted (statement lists of Model/RankIR.lean: "
+              "np.unique(axis=0, return_inverse=True) = uniqueLex + position of every row, np.unique(a[:, 0], return_inverse=True)[1], x[idx] = v / x[mask] = v "
+              "scatter writes (a write that does not fit is ignored where numpy raises), a[mask], a[idx], ~m, np.logical_and, np.isnan / <= 0 / > 0 on the penalty "
+              "vector with NaN = none, np.count_nonzero, np.max(initial=), k + a, p[:, np.newaxis], the while loop with an explicit bound n_unique, Python's "
+              "short-circuit and/or, `a or b`); _is_pareto_front(., True) is a parameter of that interpreter (the hand model's frontSorted in the theorems and the "
+              "driver); the constrained branch is proved equal to the three-scatter reference fastRef, whose identification with Rank.fastRank is compared by the "
+              "driver on every case, not proved")
 
 
 def regenerate(chk: core.Check | None = None) -> dict[str, Any] | None:
@@ -60,6 +67,17 @@ def regenerate(chk: core.Check | None = None) -> dict[str, Any] | None:
         if chk is None:
             raise
         chk.broke("translation", {"translator": "T-hv", "source": thv.HSSP, "why": ("%s: %s" % (type(e).__name__, e))[:600]})
+    try:
+        text_r, info_r = thv.translate_rank(core.REPO)
+        ch4 = core.write_if_changed(os.path.join(core.LEAN_DIR, thv.RANK_METHODS_REL), text_r)
+        if chk is not None:
+            chk.translated.append("optuna/study/_multi_objective.py: _calculate_nondomination_rank, _fast_non_domination_rank (statement lists over named numpy "
+                                  "primitives; _is_pareto_front(., True) is a parameter) -> lean/OptunaVerif/Generated/RankMethods.lean%s" % (" (changed)" if ch4 else ""))
+            chk.extra["rank_ir"] = {k: v[:700] for k, v in info_r["fields"].items()}
+    except (thv.Untranslatable, SyntaxError, OSError, IndexError, AttributeError, KeyError, ValueError) as e:
+        if chk is None:
+            raise
+        chk.broke("translation", {"translator": "T-hv", "source": thv.MO, "why": ("%s: %s" % (type(e).__name__, e))[:600]})
     if chk is not None:
         chk.translated.append("optuna/_hypervolume/wfg.py: _compute_2d, _compute_hv, _compute_exclusive_hv, compute_hypervolume -> "
                               "lean/OptunaVerif/Generated/HvMethods.lean%s; normalised text of these + hssp.py (4 functions) + _fast_non_domination_rank / "
@@ -76,7 +94,7 @@ def explain_proof_failure(chk: core.Check) -> list[str]:
     if pr is None or pr.ok:
         return []
     names: list[str] = []
-    for rel in ("OptunaVerif/Props/C15Gen.lean", "OptunaVerif/Props/C15GenSpec.lean"):
+    for rel in ("OptunaVerif/Props/C15Gen.lean", "OptunaVerif/Props/C15GenSpec.lean", "OptunaVerif/Lemmas/RankIR.lean", "OptunaVerif/Lemmas/RankBridge.lean"):
         short = rel.split("OptunaVerif/", 1)[1]
         lines = sorted({int(m.group(1)) for m in re.finditer(re.escape(short) + r":(\d+):\d+: error", pr.build_log)}
                        | {int(m.group(1)) for m in re.finditer(r"error: \S*" + re.escape(short) + r":(\d+):", pr.build_log)})
